@@ -133,6 +133,26 @@ func runIsolation(id int, c *isoCase) isoLine {
 	}
 	probeOff := len(probe.Out())
 	dead := make([]bool, c.Conns)
+	// A report is offered with a non-blocking send on a one-slot channel: it is guaranteed to
+	// arrive only if the slot is free. Undecodable inputs are therefore sequenced: the next one is
+	// delivered after the report of the previous one was received (or a bounded wait ran out once).
+	wantReports, waitFailed := 0, false
+	awaitReport := func() {
+		wantReports++
+		deadline := time.Now().Add(2 * time.Second)
+		for !waitFailed {
+			mu.Lock()
+			n := reports
+			mu.Unlock()
+			if n >= wantReports {
+				return
+			}
+			if time.Now().After(deadline) {
+				waitFailed = true
+			}
+			time.Sleep(200 * time.Microsecond)
+		}
+	}
 	for i := 1; i <= c.Msgs; i++ {
 		second := make([][]byte, c.Conns)
 		for k := 0; k < c.Conns; k++ {
@@ -149,10 +169,12 @@ func runIsolation(id int, c *isoCase) isoLine {
 					conns[k].Feed(req)
 				case "bad":
 					conns[k].Feed(cnBad())
+					awaitReport()
 				case "badbody": // a valid header whose body cannot be decoded (AVP length beyond the body)
 					bb := mkReq(k, i)
 					bb[20+5], bb[20+6], bb[20+7] = 0x00, 0xff, 0xff
 					conns[k].Feed(bb)
+					awaitReport()
 				case "eof":
 					conns[k].FeedErr(io.EOF)
 				case "eofmid":
